@@ -507,6 +507,7 @@ func (h *vHarness) runHandover(sc vScenario, sk *hoSink) {
 			}(g)
 		}
 	}
+	stuck := false
 	var carried []*hoRelay // relays kept across more than one reload
 	var straddles []*hoStraddle
 	steps := sc.Steps
@@ -541,7 +542,7 @@ func (h *vHarness) runHandover(sc vScenario, sk *hoSink) {
 		gateHit := make(chan string)
 		gateGo := make(chan struct{})
 		endedEarly := false
-		if sc.Mode != "hammer" {
+		if sc.Mode == "gated" || sc.Mode == "" {
 			verifReloadGate = func(stage string) { gateHit <- stage; <-gateGo }
 		} else {
 			verifReloadGate = nil
@@ -549,8 +550,66 @@ func (h *vHarness) runHandover(sc vScenario, sk *hoSink) {
 		h.emit(map[string]any{"ev": "LoadStart", "n": s.started.Load() + 1, "cfg": vCfgJSON(st.Cfg)})
 		s.started.Add(1)
 		done := make(chan error, 1)
-		go func() { done <- server.loadConfig(f) }()
-		if sc.Mode != "hammer" {
+		if sc.Mode == "sighup2" {
+			// the reload is requested the way an operator does: the server's own file is rewritten and the process gets
+			// SIGHUP - twice in a row.  Reloads that reach the hand-over window wait there together for a moment; every
+			// reload that started a new generation must also stop the old one and finish.
+			os.WriteFile(h.serverCfg, []byte(h.u.yaml(st.Cfg)), 0o600)
+			var gmu sync.Mutex
+			nStarted, nStopped := 0, 0
+			release := make(chan struct{})
+			verifReloadGate = func(stage string) {
+				if stage == "started" {
+					gmu.Lock()
+					nStarted++
+					gmu.Unlock()
+					<-release
+				} else if stage == "stopped" {
+					gmu.Lock()
+					nStopped++
+					gmu.Unlock()
+				}
+			}
+			counts := func() (int, int) {
+				gmu.Lock()
+				defer gmu.Unlock()
+				return nStarted, nStopped
+			}
+			syscall.Kill(os.Getpid(), syscall.SIGHUP)
+			time.Sleep(time.Duration(s.started.Load()%3) * 500 * time.Microsecond)
+			syscall.Kill(os.Getpid(), syscall.SIGHUP)
+			t0 := time.Now()
+			for a, _ := counts(); a < 1 && time.Since(t0) < 10*time.Second; a, _ = counts() {
+				time.Sleep(time.Millisecond)
+			}
+			time.Sleep(100 * time.Millisecond) // a second reload running at the same time arrives in the window too
+			close(release)
+			var err error
+			stable := time.Now()
+			la, lb := -1, -1
+			for {
+				a, b := counts()
+				if a != la || b != lb {
+					la, lb, stable = a, b, time.Now()
+				}
+				if a >= 1 && a == b && time.Since(stable) > 500*time.Millisecond {
+					break
+				}
+				if time.Since(t0) > 12*time.Second {
+					err = fmt.Errorf("%d reload(s) started a new generation, only %d stopped the old one and finished", a, b)
+					break
+				}
+				time.Sleep(2 * time.Millisecond)
+			}
+			h.emit(map[string]any{"ev": "Window", "stage": "sighup2", "started": la, "stopped": lb})
+			done <- err
+			if err != nil {
+				stuck = true
+			}
+		} else {
+			go func() { done <- server.loadConfig(f) }()
+		}
+		if sc.Mode == "gated" || sc.Mode == "" {
 			for stage := 0; stage < 2; stage++ {
 				select {
 				case name := <-gateHit:
@@ -631,6 +690,9 @@ func (h *vHarness) runHandover(sc vScenario, sk *hoSink) {
 	}
 	close(stopHammer)
 	hw.Wait()
+	if stuck {
+		return // a reload of this server never finished: its Stop would not return either
+	}
 	server.Stop()
 }
 
